@@ -6,6 +6,7 @@ import (
 	"fmt"
 	"go/token"
 	"go/types"
+	"strings"
 
 	"golang.org/x/tools/go/ssa"
 )
@@ -309,7 +310,7 @@ func (x *c04ctx) isComplement(p *Path, cond ssa.Value, took bool, at int) bool {
 					f0, f1 := lastField(p.Deref(args[0], at)), lastField(p.Deref(args[1], at))
 					return (f1 == x.fExp && val) || (f0 == x.fIssued && val)
 				}
-			case hopID("keys", "", "VerifySignature"):
+			case hopID("keys", "", "VerifySignature"), "crypto/ed25519.Verify":
 				return !val
 			default:
 				// a predicate helper around one time comparison (expired(c, now), notYetValid(c, now), ...)
@@ -345,7 +346,7 @@ func (x *c04ctx) verifyParent() {
 			}
 			for _, pr := range [][2]ssa.Value{{k.x, k.y}, {k.y, k.x}} {
 				if n, isC := constInt(pr[1]); isC && lastField(pr[0]) == x.fType {
-					if r, _ := accessPath(pr[0]); lookThrough(r) == subj {
+					if r, _ := accessPath(pr[0]); lookThrough(r) == subj || lookThrough(p.Resolve(lookThrough(r), last)) == subj {
 						return n, true
 					}
 				}
@@ -383,7 +384,7 @@ func (x *c04ctx) verifyParent() {
 		// signature
 		sig := false
 		for _, pc := range callsOnPath(p) {
-			if calleeID(pc.call) != sigID {
+			if id := calleeID(pc.call); id != sigID && id != "crypto/ed25519.Verify" {
 				continue
 			}
 			v, known := boolAfter(p, pc.call, pc.at)
@@ -673,8 +674,21 @@ func (x *c04ctx) issuance() {
 	name := FuncName(fn)
 	c.Analysed(name)
 	fPriv := P.Field("certs", "Certificate", "privateKey")
-	parent := ssa.Value(fn.Params[0])
-	issuedAt := ssa.Value(fn.Params[3])
+	// parameters by type, not position: the *Certificate is the parent, the time.Time the issuing time
+	var parent, issuedAt ssa.Value
+	for _, par := range fn.Params {
+		ts := types.TypeString(par.Type(), nil)
+		switch {
+		case strings.HasSuffix(ts, "certs.Certificate") && strings.HasPrefix(ts, "*") && parent == nil:
+			parent = par
+		case ts == "time.Time" && issuedAt == nil:
+			issuedAt = par
+		}
+	}
+	if parent == nil || issuedAt == nil {
+		c.Undecided("C04.R5", name, "issue's parent (*Certificate) and issuing time (time.Time) parameters were not identified")
+		return
+	}
 	fs := newFailSet()
 	succ := 0
 	ok := walkAll(c, "C04.R5", fn, func(p *Path) {
